@@ -11,6 +11,8 @@ import AmrK.TasteAll
 import AmrK.Grid
 import AmrK.PointModel
 import AmrK.MenuR
+import AmrK.PathsDefaults
+import AmrK.ChunksCover
 /-! `amrk-driver`: one JSON object per line in, one JSON object per line out.
     Executable definitions of the model only (no Mathlib behind any import). -/
 open Lean
@@ -149,6 +151,25 @@ def opPoint (j : Json) : Except String Json := do
 def opMenuTable (j : Json) : Except String Json := do
   let n ← (← j.getObjVal? "n").getNat?
   return Json.mkObj [("shown", toJson ((MenuR.shown n).map optJ))]
+
+/-! ### default output paths -/
+open Paths in
+def opPaths (j : Json) : Except String Json := do
+  let p := Py.ofString (← (← j.getObjVal? "path").getStr?)
+  let p2 := Py.ofString ((j.getObjValAs? String "path2").toOption.getD "")
+  let slice := Py.ofString ((j.getObjValAs? String "slicename").toOption.getD "S")
+  return Json.mkObj [("normpath", toJson (str (normpath p))), ("chef", toJson (str (chefDefault p))),
+    ("marinate", toJson (str (marinateDefault p))), ("chk2plt", toJson (str (chk2pltDefault p))),
+    ("combine", toJson (str (combineDefault p p2))), ("mandoline", toJson (str (mandolineDefault p slice)))]
+
+/-! ### chunking of a sliced level over binary files -/
+def opChunks (j : Json) : Except String Json := do
+  let n ← (← j.getObjVal? "n").getNat?
+  let total ← (← j.getObjVal? "total_bytes").getNat?
+  let thr ← (← j.getObjVal? "threshold").getNat?
+  let nfiles := total / thr + 1
+  return Json.mkObj [("nfiles", toJson nfiles),
+    ("chunks", toJson (Chunks.written n (max (Chunks.cdiv n nfiles) 1) (nfiles + 1)))]
 
 /-! ### mandoline column -/
 open Column in
@@ -292,6 +313,8 @@ partial def loop (h : IO.FS.Stream) (out : IO.FS.Stream) (files : Std.HashMap St
         | "cover" => opCover j
         | "point" => opPoint j
         | "menu_table" => opMenuTable j
+        | "paths" => opPaths j
+        | "chunks" => opChunks j
         | "taste_plt" => opTastePlt files j
         | "column" => opColumn j
         | "pestle" => opPestle j
